@@ -2062,11 +2062,12 @@ func (interp *Interpreter) cfg(root *node, sc *scope, importPath, pkgName string
 					if isStruct(n.typ) {
 						// If a method of the same name exists, use it if it is shallower than the struct field.
 						// if method's depth is the same as field's, this is an error.
-						d := n.typ.methodDepth(n.child[1].ident)
-						if d >= 0 && d < len(ti) {
+						// The depth of the field is the number of embedded fields traversed to reach it.
+						d, fd := n.typ.methodDepth(n.child[1].ident), len(ti)-1
+						if d >= 0 && d < fd {
 							goto tryMethods
 						}
-						if d == len(ti) {
+						if d == fd {
 							err = n.cfgErrorf("ambiguous selector: %s", n.child[1].ident)
 							break
 						}
